@@ -134,8 +134,15 @@ def gen_conv_cmd(rng, depth=0, path="p", stats=None):
                 a["vp"] = "os"
         c["args"].append(a)
     npos = rng.randrange(0, 4)
+    explicit = npos >= 2 and rng.random() < 0.25
+    if explicit:
+        order = list(range(npos))
+        rng.shuffle(order)
+        c["decl_order"] = order      # declared in another order than their indices (gen_cmd.cmd_sx)
     for k in range(npos):
         a = {"id": ("p%d" % k).encode(), "flags": set()}
+        if explicit:
+            a["index"] = k + 1
         if k == npos - 1 and rng.random() < 0.5:
             a["num"] = pick(rng, [(0, None), (1, None), (1, 3), (2, 2)])
             if rng.random() < 0.4:
